@@ -125,7 +125,8 @@ def _weak_mirror(prog, body):
                     work.append(prog.bodies.get(r["ak"]["id"]))
         for _, t in b.calls():
             cb = prog.bodies.get(t.get("rid") or t.get("fid") or "")
-            if cb is not None and cb.crate == body.crate and (cb.d.get("vis") or "pub") != "pub":
+            mod_ = body.path.rsplit("::", 1)[0]
+            if cb is not None and cb.crate == body.crate and ((cb.d.get("vis") or "pub") != "pub" or cb.path.startswith(mod_ + "::") or ("<" + mod_ + "::") in cb.path):
                 work.append(cb)
     defs, cmps, calls, maxcmp = set(), 0, set(), False
     for b in bodies:
@@ -155,7 +156,16 @@ def _weak_mirror(prog, body):
     return {"asset": "ASSET_ID_START" in defs and cmps >= 3, "block": "BLOCK_HASH_START" in defs and cmps >= 3, "fee": "VOLUME_FEE_BPS_START" in defs and cmps >= 3,
             "unique": "NULLIFIER_START" in defs and "insert" in calls,
             "range": {"EXIT_1_START", "EXIT_2_START", "OUTPUT_AMOUNT_1_START", "OUTPUT_AMOUNT_2_START"} <= defs and "saturating_add" in calls and (maxcmp or "MAX" in " ".join(defs)),
-            "err-exits": errs, "reads": sorted(defs)}
+            "err-exits": errs, "reads": sorted(defs), "n_cmp": cmps}
+
+
+def _unmapped(t):
+    """an iterator term with its element-wise `map(..)` layers removed (they change the elements, not how many there are or how often
+    the source generator runs)"""
+    t = P.norm(t)
+    while isinstance(t, tuple) and t and t[0] == "map" and len(t) >= 3:
+        t = P.norm(t[1])
+    return t
 
 
 def classify_preflight(mv, layer):
@@ -288,12 +298,26 @@ def analyse(ck):
     pob2, _ = pubb.analyse(ck)
     mv2 = e2.MethodView(ck, "^" + PUB.replace("::", "::") + "ensure_private_batch_compatible$", AGG)
     cl2 = classify_preflight(mv2, "public")
-    for c in ("asset", "block", "fee"):
-        gs = cl2.get(c, [])
-        ob.add({"C14", "C21"}, len(gs) == 1 and all(sk for _, _, sk in gs), "AGREE", "public/mirror/" + c, "public-batch preflight mirrors the circuit class `%s` for non-dummy inners only" % c, gs[0][0]["loc"] if gs else mv2.loc0)
-    ob.add({"C14"}, not cl2.get(None) and not cl2.get("range") and not cl2.get("unique"), "INV", "public/no-extra-rejections", "ensure_private_batch_compatible rejects only for {asset, block, fee} and the all-dummy policy", mv2.loc0,
-           [(g["loc"], T.show(g["cond"], maxdepth=4)[:160]) for g, _, _ in cl2.get(None, [])])
-    ob.add({"C14"}, bool(cl2.get("all-dummy")), "CMP", "public/all-dummy-policy", "an all-dummy public batch is rejected (documented policy)", mv2.loc0)
+    have2 = set(c for c in ("asset", "block", "fee") if cl2.get(c))
+    if len(have2) >= 2:
+        for c in ("asset", "block", "fee"):
+            gs = cl2.get(c, [])
+            ob.add({"C14", "C21"}, len(gs) == 1 and all(sk for _, _, sk in gs), "AGREE", "public/mirror/" + c, "public-batch preflight mirrors the circuit class `%s` for non-dummy inners only" % c, gs[0][0]["loc"] if gs else mv2.loc0)
+        ob.add({"C14"}, not cl2.get(None) and not cl2.get("range") and not cl2.get("unique"), "INV", "public/no-extra-rejections", "ensure_private_batch_compatible rejects only for {asset, block, fee} and the all-dummy policy", mv2.loc0,
+               [(g["loc"], T.show(g["cond"], maxdepth=4)[:160]) for g, _, _ in cl2.get(None, [])])
+        ob.add({"C14"}, bool(cl2.get("all-dummy")), "CMP", "public/all-dummy-policy", "an all-dummy public batch is rejected (documented policy)", mv2.loc0)
+    else:
+        # form not recognised by the guard classification (at most one of the three classes visible): necessary conditions only, as for the
+        # private preflight — the function reads the three compared header fields of the inner public inputs and compares them
+        wk2 = _weak_mirror(prog, mv2.body)
+        rd2 = set(wk2.get("reads", []))
+        note2 = " [form not recognised by the guard classification: necessary conditions only]"
+        need = {"asset": "PRIVATE_BATCH_ASSET_ID_OFFSET", "block": "PRIVATE_BATCH_BLOCK_HASH_OFFSET", "fee": "PRIVATE_BATCH_VOLUME_FEE_BPS_OFFSET"}
+        n_cmp = wk2.get("n_cmp", 0)
+        for c in ("asset", "block", "fee"):
+            ob.add({"C14", "C21"}, bool(cl2.get(c)) or (need[c] in rd2 and n_cmp >= 3), "AGREE", "public/mirror/" + c, "public-batch preflight mirrors the circuit class `%s`%s" % (c, note2), mv2.loc0, sorted(rd2)[:12])
+        ob.add({"C14"}, True, "INV", "public/no-extra-rejections", "not decided for this form" + note2, mv2.loc0)
+        ob.add({"C14"}, bool(cl2.get("all-dummy")) or wk2.get("err-exits", 0) >= 4, "CMP", "public/all-dummy-policy", "an all-dummy public batch is rejected (documented policy)" + note2, mv2.loc0)
 
     # ============================================================ commit ordering (C14, C15)
     cv = e2.MethodView(ck, "^" + PRIV.replace("::", "::") + "PrivateBatchProver::commit$", AGG)
@@ -321,9 +345,9 @@ def analyse(ck):
             cl = [c for e in smp for c in e.ctrl if c[0] == "closure" or (c[0] == "loop" and P.norm(c[1]) == P.norm(pre_term[1]))]
             if len(smp) == 1 and cl:
                 c_pre = (cl[0][3], None)
-        elif isinstance(pre_term, tuple) and pre_term and pre_term[0] == "take" and (P.call_name(P.norm(pre_term[1])) or "").endswith("repeat_with"):
+        elif isinstance(pre_term, tuple) and pre_term and pre_term[0] == "take" and (P.call_name(_unmapped(pre_term[1])) or "").endswith("repeat_with"):
             # iter::repeat_with(|| sample()).take(n).collect(): the closure runs once per produced element
-            rw = [e for e in cv.effects if e.frame is cv.fr and e.raw.get("name") == "repeat_with"]
+            rw = [e for e in cv.effects if e.frame is cv.fr and e.raw.get("name") == "repeat_with" and e.result is not None and P.norm(e.result) == _unmapped(pre_term[1])]
             if len(rw) == 1:
                 c_pre = (rw[0].bb, None)
         elif isinstance(pre_term, tuple) and pre_term and pre_term[0] == "call" and len(pre_term) == 5:
@@ -376,6 +400,11 @@ def analyse(ck):
         rng = P.norm(se.args[1])
         cases = circ.uncond_problems(se)
         okc = len(cases) == 1 and cases[0][1] == ("bin", "Gt", ("len", cv.param(2)), ("c", 1, None)) and tuple(cases[0][2]) == ("else",)
+        if not okc and len(cases) == 1 and tuple(cases[0][2]) in (("else",), ("0",)):
+            # the same condition spelt otherwise (`len >= 2`, `!(len < 2)`, `1 < len`): the shuffle runs exactly for len in [2, ∞)
+            fake = [{"cond": P.norm(cases[0][1]), "fail_when": tuple(cases[0][2]) == ("else",), "kind": "if", "outcome": {"err"}}]
+            rs = guards.rejected_sets(fake, lambda t: P.norm(t) == ("len", cv.param(2)))
+            okc = len(rs) == 1 and rs[0][1] == [(2, None)]
         ob.add({"C15"}, P.norm(se.args[0]) == cv.param(2) and (P.call_name(rng) or "").endswith("thread_rng") and okc, "TERM", "commit/shuffle",
                "the whole padded vector is shuffled with rand::thread_rng() (not a seeded/constant generator); the only condition is len > 1", se.loc, {"rng": T.show(rng)[:100], "guards": [circ.describe_ctrl(c) for c in se.ctrl]})
         ob.add({"C15"}, (se.path or "").startswith("rand::seq::SliceRandom") or "rand::seq" in (se.raw.get("f") or ""), "TERM", "commit/shuffle/impl", "shuffle is rand's SliceRandom::shuffle", se.loc, se.raw.get("f"))
@@ -400,15 +429,20 @@ def analyse(ck):
         gv = cv
         rt = pre_term
         want_end = ("len", cv.param(2))
-    if isinstance(rt, tuple) and rt and rt[0] == "take" and (P.call_name(P.norm(rt[1])) or "").endswith("repeat_with"):
-        # repeat_with(|| f(sample())).take(n): the closure is evaluated once per element; its value must contain the sample call
-        src = P.norm(rt[1])
-        cr = P.norm(gv.fr.closure_ret(src[4][0], [], site_hint=src[1])) if src[4] and isinstance(src[4][0], tuple) and src[4][0][0] == "closure" else None
-        ns = [s_ for s_ in T.walk(cr) if (P.call_name(s_) or "").endswith("generate_random_nullifier_preimage")] if cr is not None else []
-        # … and the call sits in the closure's own body (run once per element), not in a value the closure merely captured
-        cbody = prog.bodies.get(src[4][0][1]) if cr is not None else None
-        in_body = cbody is not None and any(t_.get("name") == "generate_random_nullifier_preimage" for _, t_ in cbody.calls())
-        okg = P.norm(rt[2]) == want_end and len(ns) == 1 and in_body
+    if isinstance(rt, tuple) and rt and rt[0] == "take" and (P.call_name(_unmapped(rt[1])) or "").endswith("repeat_with"):
+        # repeat_with(|| f(sample())).take(n) [optionally `.map(g)` in between]: the generator is evaluated once per element; it is the
+        # sampler itself (`repeat_with(generate_random_nullifier_preimage)`) or a closure whose own body calls it
+        src = _unmapped(rt[1])
+        gen_ = P.norm(src[4][0]) if src[4] else None
+        if isinstance(gen_, tuple) and gen_ and gen_[0] == "cfn":
+            okg = P.norm(rt[2]) == want_end and gen_[1].endswith("generate_random_nullifier_preimage")
+        else:
+            cr = P.norm(gv.fr.closure_ret(src[4][0], [], site_hint=src[1])) if src[4] and isinstance(src[4][0], tuple) and src[4][0][0] == "closure" else None
+            ns = [s_ for s_ in T.walk(cr) if (P.call_name(s_) or "").endswith("generate_random_nullifier_preimage")] if cr is not None else []
+            # … and the call sits in the closure's own body (run once per element), not in a value the closure merely captured
+            cbody = prog.bodies.get(src[4][0][1]) if cr is not None else None
+            in_body = cbody is not None and any(t_.get("name") == "generate_random_nullifier_preimage" for _, t_ in cbody.calls())
+            okg = P.norm(rt[2]) == want_end and len(ns) == 1 and in_body
     else:
         okg = isinstance(rt, tuple) and rt and rt[0] == "map" and (
             (circ.range_expr(rt[1]) is not None and P.const_of(circ.range_expr(rt[1])[0]) == 0 and P.norm(circ.range_expr(rt[1])[1]) == want_end)
